@@ -794,7 +794,7 @@ fn run_one(wrap: Wrap, scn: &Scn, serial: &[Serial], ch: &mut Chooser) -> ExecOu
     let replay = json!({"wrap": wrap, "scenario": scn.name, "choices": ch.choices()});
     let viol = |what: &str, text: String| {
         Some(Violation {
-            signature: format!("C07/step/{}/{}/{}", wrap.kind(), scn.name, what),
+            signature: format!("C07/step/{}/{}/{}", if wrap == Wrap::Enc(7) { "enc7" } else { wrap.kind() }, scn.name, what),
             summary: format!("{} {}: {} [schedule {:?}]", wrap.label(), scn.name, text, ch.choices()),
             replay: replay.clone(),
         })
@@ -928,8 +928,12 @@ fn main() {
     let bound = run.tier.pick(3u32, 8u32);
     let threads = util::n_threads();
     let mut table = Vec::new();
-    for wrap in [Wrap::Meta, Wrap::Enc(16)] {
+    // the multi-range scenarios also at chunk size 7 (five chunks, spans 0, 2, 4)
+    for wrap in [Wrap::Meta, Wrap::Enc(16), Wrap::Enc(7)] {
         for scn in &scns {
+            if wrap == Wrap::Enc(7) && !scn.name.starts_with("get_ranges") {
+                continue;
+            }
             let serial = serial_outcomes(scn);
             // determinism of the harness: the default schedule twice
             let a = run_one(wrap, scn, &serial, &mut Chooser::new(vec![]));
@@ -1006,7 +1010,7 @@ fn main() {
     run.set("harnesses", json!(table));
     run.set("preemption_bound", json!(bound));
     run.rule(
-        "per wrapper {MetaStore, EncryptedStore(cs=16)} and scenario (two or three tasks on one key through one wrapper instance over a gated backend; a task is a mutation, a full get, a listing, or ONE get_ranges call of 3-5 ranges in different chunk spans of a three-chunk object racing an equally long overwrite by put / Update / multipart / copy-onto / rename-onto, warm and cold): every schedule of inner-store calls with at most `preemption_bound` preemptions; \
+        "per wrapper {MetaStore, EncryptedStore(cs=16); the get_ranges scenarios also EncryptedStore(cs=7)} and scenario (two or three tasks on one key through one wrapper instance over a gated backend; a task is a mutation, a full get, a listing, or ONE get_ranges call of 3-5 ranges in different chunk spans of a three-chunk object racing an equally long overwrite by put / Update / multipart / copy-onto / rename-onto, warm and cold): every schedule of inner-store calls with at most `preemption_bound` preemptions; \
          oracle = answers of every action (for get_ranges: all bodies of the one call, so they must come from one commit) and final content of all keys equal some serial order of the tasks' atomic steps run on InMemory (a rename is two steps, copy then delete of the source, as documented; everything else is one), after all tasks returned the live instance's list / list_with_delimiter entries, get_ranges at the length boundaries, get with if_match = latest token and head must reflect the last completed commit as a fresh instance reports it (checked before any plain get, which would heal a stale pointer; a listing that overlaps a commit may itself report either version), live and fresh instance read the same, head/list agree, a surviving put's token is the one it returned; \
          commit order (under a logical clock that advances on every reading): every commit of a key = every meta/<key> put in the backend journal, observed through a fresh instance over the journal prefix: last_modified never decreases from one commit of a key to the next, and get(if_modified_since = T of the previous commit) answers the new object, get(if_unmodified_since = that T) is refused (the other answer only for the very same instant), on the fresh instance at every commit and on the live instance at the end; \
          distinct = distinct observed (answers, final content) outcomes per harness; states = same; transitions = task polls",
